@@ -148,6 +148,9 @@ def known_match(known, prop, key):
 # parent side
 
 
+_STRIDE = [None, 0]
+
+
 def run_check(modname, tier, seed, workers=None, budget=None, only_unit=None):
   bind_repo()
   os.environ['PYTHONHASHSEED'] = '0'
@@ -159,6 +162,13 @@ def run_check(modname, tier, seed, workers=None, budget=None, only_unit=None):
   units = check.units(tier, seed)
   if only_unit is not None:
     units = [units[only_unit]]
+  # development aid: VERIF_UNIT_STRIDE="k[:offset]" runs every k-th unit only (reported as a cap)
+  stride = os.environ.get('VERIF_UNIT_STRIDE') if only_unit is None else None
+  n_all_units = len(units)
+  if stride:
+    k, _, off = stride.partition(':')
+    units = units[int(off or 0)::max(1, int(k))]
+  _STRIDE[:] = [stride, n_all_units]
   n_units = len(units)
   workers = workers or int(os.environ.get('VERIF_WORKERS', '0')) or min(16, os.cpu_count() or 1)
   workers = max(1, min(workers, n_units))
@@ -213,7 +223,8 @@ def finish(check, tier, seed, units, results, timed_out, wall):
   samples = []
   viols = {}
   harness_errors = []
-  capped = timed_out
+  stride, n_all_units = _STRIDE
+  capped = timed_out or bool(stride)
   extra = {}
   for r in results:
     if 'harness_error' in r:
@@ -289,6 +300,8 @@ def finish(check, tier, seed, units, results, timed_out, wall):
                explanation='exploration runs on the implementation itself: every '
                'transition is an execution of the real code compared with the '
                'reference model / differential oracle')
+  if stride:
+    cov['cap'] = f'unit stride {stride}: {len(results)} of {n_all_units} units run'
   if timed_out:
     cov['cap'] = f'wall-clock budget hit after {len(results)}/{len(units)} units'
   ev = dict(property_id=prop, tier=tier, seed=int(seed), level=level, coverage=cov,
